@@ -91,3 +91,107 @@ func agentCrossCheck(s *sut.SUT, c *ev.Check, items []Item, fsets []Flags) {
 		}
 	})
 }
+
+// optionHistory: the redaction options are process-wide state behind setters. A long-lived
+// process that changes ONE option at a time (only that setter is called) must, after every change,
+// produce exactly what a fresh process configured with the same final settings produces: no memo,
+// snapshot or cached primitive may survive a setter it depends on. The reference for every step
+// comes from a fresh agent process that calls all setters once.
+func optionHistory(s *sut.SUT, c *ev.Check, items []Item) {
+	n := 120
+	if len(items) < n {
+		n = len(items)
+	}
+	step := len(items) / n
+	lines := make([]string, 0, n)
+	for i := 0; i < n; i++ {
+		if raw := items[i*step].Raw; len(raw) < 20000 {
+			lines = append(lines, string(raw))
+		}
+	}
+	key2 := b64(bytesRepeat(0x33, 64))
+	type st struct {
+		name   string
+		change sut.AgentCmd // the single setter called
+		apply  func(f *sut.AgentCmd)
+	}
+	full := setCmd(Flags{})
+	cur := sut.AgentCmd{}
+	for k, v := range full {
+		cur[k] = v
+	}
+	one := func(name, field string, val any) st {
+		return st{name, sut.AgentCmd{"op": "set", field: val}, func(f *sut.AgentCmd) { (*f)[field] = val }}
+	}
+	steps := []st{
+		one("numbers on", "numbers", true), one("booleans on (last setter called)", "booleans", true), one("replacement [x]", "replacement", "[x]"),
+		one("booleans off", "booleans", false), one("booleans on again", "booleans", true),
+		one("regexp A", "regexp", "^(status|qty|age)$"), one("regexp B directly after A", "regexp", "^(name|ssn|tags|email)$"), one("regexp off", "regexp", ""),
+		one("namespaces on", "namespaces", true), one("replacement Ω", "replacement", "Ωm"), one("field names for db", "eager", []string{"db"}), one("replacement back", "replacement", "REDACTED"),
+		one("field names off", "eager", []string{}), one("encrypt on", "encrypt", true), one("key 1", "key_b64", TestKeyB64), one("key 2", "key_b64", key2),
+		one("unusable key (32 bytes)", "key_b64", b64(bytesRepeat(0x41, 32))), one("key 1 again", "key_b64", TestKeyB64), one("encrypt off", "encrypt", false),
+		one("ips on", "ips", true), one("numbers off", "numbers", false), one("namespaces off", "namespaces", false), one("booleans off (end)", "booleans", false),
+	}
+	script := []sut.AgentCmd{full, {"op": "redact", "lines": lines}}
+	var refs [][]sut.AgentCmd
+	refs = append(refs, []sut.AgentCmd{full, {"op": "redact", "lines": lines}})
+	for _, x := range steps {
+		script = append(script, x.change, sut.AgentCmd{"op": "redact", "lines": lines})
+		x.apply(&cur)
+		snap := sut.AgentCmd{}
+		for k, v := range cur {
+			snap[k] = v
+		}
+		refs = append(refs, []sut.AgentCmd{snap, {"op": "redact", "lines": lines}})
+	}
+	recs, crashed, res, err := s.Agent(script, nil, 0)
+	if err != nil || crashed >= 0 {
+		what := "agent failed"
+		if crashed >= 0 {
+			what = fmt.Sprintf("the process died during command %d of the option walk (step %q)", crashed, steps[(crashed-2)/2].name)
+			c.Violation("option-history|process-died", what+": "+short(res.Stderr, 300), map[string]any{"kind": "option-history"})
+			return
+		}
+		c.Inconclusive("option history: " + what + ": " + short(res.Stderr, 200))
+		return
+	}
+	outsOf := func(r sut.AgentRec) []any { o, _ := r["outs"].([]any); return o }
+	parallelDo(len(refs), func(k int) {
+		fr, cr, fres, ferr := s.Agent(refs[k], nil, 0)
+		if ferr != nil || cr >= 0 || len(fr) != 2 {
+			c.Inconclusive("option history reference: " + short(fres.Stderr, 200))
+			return
+		}
+		name := "initial settings"
+		if k > 0 {
+			name = steps[k-1].name
+		}
+		a, b := outsOf(recs[1+2*k]), outsOf(fr[1])
+		c.Count("option_history_steps", 1)
+		for i := range lines {
+			if i >= len(a) || i >= len(b) {
+				break
+			}
+			ma, _ := a[i].(map[string]any)
+			mb, _ := b[i].(map[string]any)
+			c.Count("option_history_lines_compared", 1)
+			if ma["panic"] != nil {
+				c.Violation("option-history|panic|"+name, fmt.Sprintf("after the step %q of an option walk RedactMongoLog panicked: %v", name, ma["panic"]), map[string]any{"kind": "option-history", "step": name, "input": lines[i]})
+				return
+			}
+			if fmt.Sprint(ma["out"]) != fmt.Sprint(mb["out"]) {
+				c.Violation("option-history|"+name, fmt.Sprintf("after changing one option at a time up to %q a long-lived process gives another line than a fresh process with the same settings: %s  vs fresh  %s", name, trunc(fmt.Sprint(ma["out"]), 220), trunc(fmt.Sprint(mb["out"]), 220)),
+					map[string]any{"kind": "option-history", "step": name, "input": lines[i], "long_lived": ma["out"], "fresh": mb["out"]})
+				return
+			}
+		}
+	})
+}
+
+func bytesRepeat(b byte, n int) []byte {
+	o := make([]byte, n)
+	for i := range o {
+		o[i] = b
+	}
+	return o
+}
